@@ -49,7 +49,7 @@ MANIFEST = dict(
 )
 
 NEGS = ["preload_err", "scn_err", "scn_noclose", "grpc_spin", "array_single", "pass_off_by_one", "limit_gt",
-        "limit_err", "noclose_on_limit", "nodone_select"]
+        "limit_err", "noclose_on_limit", "nodone_select", "rewind_first"]
 
 
 def cases_from(r):
@@ -130,6 +130,9 @@ def describe(o, inv):
             "ok=false, sink closed after cancel=%s; %d delivered" % (
                 o["fault"], o["faults_hit"], o["run_ret"], o["run_class"], o["run_err"], o["cons_done"], o["eofs"], o["nc"],
                 o["eof_after"], o["count"])
+    if inv == "NoSeekOK":
+        return base + "source that cannot seek (every rewind fails; %d rewind attempt(s)), all wanted items lie in the first pass: " \
+            "Run returned=%s class=%s (%r), %d delivered" % (o["faults_hit"], o["run_ret"], o["run_class"], o["run_err"], o["count"])
     if inv == "NoFdLeak":
         return base + "the driver process held %d open descriptors before its first cell and %d after this one" % (
             o["fds0"], o["fds"])
@@ -165,7 +168,7 @@ def judge(v, tr, rows):
     return bad_cells
 
 
-QUICK_NEGS = ["preload_err", "scn_noclose", "grpc_spin", "array_single"]     # the pre-fix behaviours
+QUICK_NEGS = ["preload_err", "scn_noclose", "grpc_spin", "array_single", "rewind_first"]     # the pre-fix behaviours
 
 
 def run(tier, v):
